@@ -28,7 +28,7 @@ func init() {
 		if tier == "thorough" {
 			n = 900
 		}
-		return Plan{Runs: n, Race: true, Level: "exploration", Rule: "one run = six concurrent phases (cold-start handshakes; first use of a new multi-URL location while a refresh tick runs; handshakes vs tick vs UpdateCRL vs forced background refresh; handshakes after a refresh that failed signature verification; OCSP lookups around cache expiry; handshakes vs Cleanup) with 2-6 client tasks over 1-2 validators, backend, fetch mode and preemption density drawn per run, executed under the race detector; non-trivial = at least 10 task switches happened inside a phase; distinct = distinct schedule fingerprints"}
+		return Plan{Runs: n, Race: true, Level: "exploration", Rule: "one run = seven concurrent phases (cold-start handshakes; first use of a new multi-URL location while a refresh tick runs; handshakes overtaking a slow background first load; handshakes vs tick vs UpdateCRL vs forced background refresh; handshakes after a refresh that failed signature verification; OCSP lookups around cache expiry; handshakes vs Cleanup) with 2-6 client tasks over 1-2 validators, backend, fetch mode and preemption density drawn per run, executed under the race detector; non-trivial = at least 10 task switches happened inside a phase; distinct = distinct schedule fingerprints"}
 	}, Run: runC13})
 }
 
@@ -137,6 +137,7 @@ func runC13(h *Harness) {
 	{
 		l4 := w.NewLocation(LocOpts{Name: "L4", URL: "http://crl4.sim/d.crl", Issuer: w.A, NVers: 1, Extra: 2, Width: 11, Base: 3})
 		cdp4 := []string{"http://dead4.sim/x.crl", l4.URL} // several URLs: the loader remembers which one worked
+		l4.SlowFirst = Pick(tp, 0, 2*time.Second, 2*time.Second)  // whoever asks first (updater or handshake) is overtaken by the other
 		h.S.Run(func(v schedView) bool {
 			for _, t := range v.parked {
 				if t.kind == kStart && !t.client {
@@ -162,6 +163,40 @@ func runC13(h *Harness) {
 			v := errStr(c.hs.Err)
 			if strict && ((listed && v != "revoked") || (!listed && v != "accept")) {
 				h.Violation("C13.verdict", "first-use-during-tick", "phase 1b: %s on a location first used while a refresh tick ran returned %s", c.class, v)
+			}
+		}
+	}
+	// ---------------------------------------------------------------- phase 1c: a background first load is overtaken by a handshake
+	// The first handshake finds the origin down: the entry exists but is not loaded. The origin recovers; the next tick
+	// starts loading the entry in the background and is served slowly; handshakes arriving meanwhile load it themselves.
+	{
+		l7 := w.NewLocation(LocOpts{Name: "L7", URL: "http://crl7.sim/g.crl", Issuer: w.A, NVers: 1, Extra: Pick(tp, 2, 30), Width: 14, Base: 7})
+		n0 := nodes[0]
+		l7.State = oDown
+		s0, _ := mkcert(l7, "never")
+		h.Handshake(n0, "L7/down", w.ChainFor(l7.Issuer.Issue(EEOpts{Serial: s0, CDP: []string{l7.URL}}), l7.Issuer))
+		l7.State, l7.Fetches, l7.SlowFirst = oGood, 0, Pick(tp, 3*time.Second, 3*time.Second, 0)
+		// let the next tick reach its (slow) download of L7
+		h.S.Run(func(v schedView) bool { return l7.Fetches > 0 }, h.S.Now()+11*time.Minute)
+		overtaken := l7.Fetches > 0
+		cs = nil
+		for i := 0; i < 2+nclients/2; i++ {
+			cs = append(cs, spawn(n0, l7, Pick(tp, "common", "never"), nil))
+		}
+		waitAll(cs)
+		h.Settle(30 * time.Second)
+		// and the location keeps answering afterwards (nobody left a lock behind)
+		cs = append(cs, spawn(n0, l7, "common", nil), spawn(n0, l7, "never", nil))
+		waitAll(cs[len(cs)-2:])
+		if overtaken {
+			h.Probe("background-first-load-overtaken")
+		}
+		for _, c := range cs {
+			h.R.Checks++
+			listed := c.loc.Lists(0, c.serial)
+			v := errStr(c.hs.Err)
+			if strict && ((listed && v != "revoked") || (!listed && v != "accept")) {
+				h.Violation("C13.verdict", "first-use-overtakes-background-load", "phase 1c: %s on a location whose background first load was overtaken by a handshake returned %s", c.class, v)
 			}
 		}
 	}
